@@ -303,7 +303,9 @@ func (x *Exec) load(s *State, pv Value, t types.Type) Value {
 			x.typeInv(s, ts[i], l)
 		}
 		x.sliceInv(s, ls, ts)
-		return x.fromLeaves(p.Type, &ts)
+		rv := x.fromLeaves(p.Type, &ts)
+		x.assumeIfaceTyped(rv, p.Type)
+		return rv
 	case p.Arr != nil:
 		ls := flatten(p.Type)
 		ts := make([]*smt.Term, len(ls))
@@ -316,7 +318,9 @@ func (x *Exec) load(s *State, pv Value, t types.Type) Value {
 			}
 		}
 		x.sliceInv(s, ls, ts)
-		return x.fromLeaves(p.Type, &ts)
+		rv := x.fromLeaves(p.Type, &ts)
+		x.assumeIfaceTyped(rv, p.Type)
+		return rv
 	}
 	unsupported("load through %s", p)
 	return nil
